@@ -325,9 +325,10 @@ Proof.
   destruct (Put d p v false) as [od| | | |]; cbn [bind]; try reflexivity. apply IH.
 Qed.
 
-(* the model of Put refuses to extend an array beyond index 10^8 (the real
-   code would allocate); recorded $push element paths must stay below that *)
-Definition seg_small (s : string) : Prop := forall n, 0 <= n -> s = show_Z n -> n <= 100000000.
+(* the index segments that $push records are int indices (strconv.Atoi must
+   read them back): always true in Go, where a slice length fits an int; the
+   model's lists have no such bound, hence the side condition *)
+Definition seg_small (s : string) : Prop := forall n, 0 <= n -> s = show_Z n -> n < two63.
 Definition path_small (ps : string) : Prop := Forall seg_small (split_path ps).
 Definition small_changes (ch : changes) : Prop := Forall (fun kv => path_small (fst kv)) ch.
 
@@ -544,12 +545,12 @@ Qed.
 
 (* appending one element through its index path = writing the longer array *)
 Lemma push_one d ps arr v :
-  Get d ps = VArr arr -> is_missing v = false -> len arr <= 100000000 ->
+  Get d ps = VArr arr -> is_missing v = false -> len arr < two63 ->
   exists d1, Put d (ps ++ "." ++ show_Z (len arr)) v false = Ok (VMissing, d1) /\
              Put d ps (VArr (arr ++ [v])) false = Ok (VArr arr, d1).
 Proof.
   intros G Hv Hl. pose proof (len_nonneg arr) as L0.
-  assert (B : 0 <= len arr < two63) by (unfold two63; lia).
+  assert (B : 0 <= len arr < two63) by lia.
   assert (P0 : put (VArr arr) [show_Z (len arr)] v false = Some (VMissing, VArr (arr ++ [v]))).
   { rewrite put_arr. destruct (show_Z_all_digits (len arr) L0) as [_ NE].
     assert (E : empty_path [show_Z (len arr)] = false) by (destruct (show_Z (len arr)); [congruence | reflexivity]).
@@ -574,7 +575,7 @@ Proof.
   - exists d. split; [reflexivity|]. rewrite app_nil_r. apply put_get_id; [exact G | discriminate].
   - inversion Hm as [|? ? Hv Ht]; subst. cbn [each_changes] in *. inversion Hs as [|? ? S1 S2]; subst.
     pose proof (len_nonneg arr) as L0.
-    assert (Hl : len arr <= 100000000).
+    assert (Hl : len arr < two63).
     { cbn [fst] in S1. unfold path_small in S1. pose proof (split_path_index ps _ L0) as SI. cbn [append] in SI. rewrite SI in S1.
       apply Forall_app in S1. destruct S1 as [_ S1]. inversion S1 as [|? ? Sm _]; subst. exact (Sm _ L0 eq_refl). }
     destruct (push_one _ _ _ _ G Hv Hl) as (d1 & P1 & P2).
@@ -1001,8 +1002,8 @@ Qed.
    path-sorted list that Apply returns) on the original document, gives the
    resulting document — for every update that Apply accepts (all 15 operators,
    positional paths included).  Side conditions: values without the Missing
-   marker (true of BSON), and recorded index segments within the model's
-   array-extension limit. *)
+   marker (true of BSON), and recorded $push index segments below 2^63 (always
+   true in Go; the model's lists are unbounded). *)
 Theorem apply_changes_faithful m d q u up fs now d' sorted :
   has_missing (VDoc u) = false ->
   apply_with m d q u up fs now = Ok (d', sorted) ->
@@ -1010,6 +1011,7 @@ Theorem apply_changes_faithful m d q u up fs now d' sorted :
              (small_changes ch -> replay ch d = Ok d').
 Proof.
   intros Hm H. unfold apply_with in H. destruct u as [|kv t]; [discriminate|].
+  destruct (conflicting_path (kv :: t)); [discriminate|].
   destruct (apply_ops m up now fs (kv :: t) (d, [])) as [[d1 ch]| | | |] eqn:E; cbn [bind] in H; try discriminate.
   injection H as <- <-. destruct (apply_ops_faithful _ _ _ _ _ Hm _ _ _ _ E) as (delta & -> & R).
   exists delta. split; [apply stable_sort_perm|]. split; [reflexivity | exact R].
